@@ -240,7 +240,7 @@ def run(ctx):
                 "(kind, source, sn, rhl, forwarded?, delivered?)")
     rs.stack.patch_time()
     if ctx.tier == "quick":
-        histories(ctx, 45, 80)
+        histories(ctx, 110, 90)
         for n in (3, 5):
             for topo in ("line", "mesh"):
                 for alg in ("SIMPLE", "CBF"):
